@@ -13,7 +13,7 @@ func init() {
 	registerProperty(&PropertyInfo{
 		ID:    "C11",
 		Title: "No needed file is ever removed; handles and the lock are released",
-		Rules: []string{"C11.R1", "C11.R2", "C02.R2", "C11.R4", "C11.R5", "C11.R6"},
+		Rules: []string{"C11.R1", "C11.R2", "C02.R2", "C11.R4", "C11.R5", "C11.R6", "C11.R7"},
 		Decides: "who may remove and under which guard, and acquire/release pairing on all paths: Directory.Remove is called only by the deletion policy's clean-up and by the offline merge behind the successful persist of the merged segment; Commit/Cleanup of the deletion policy are invoked only in the persister goroutine or in OpenWriter before any goroutine starts; in the segment clean-up a Remove is unreachable from a membership hit in any live epoch's segment set without starting the next candidate, candidates enter knownSegmentFiles only in Commit, an id/epoch is forgotten only on the success edge of its Remove, epochs become deletable only behind len(liveEpochs) > n; commit follows the durable snapshot (C02.R2); every closer obtained from Directory.Load and every wrapper obtained from a loading function is closed, returned, or stored into a holder that is itself returned or closed on every path; every snapshot reference obtained inside package index is closed on every path; OpenWriter touches the directory's contents only behind a successful Lock, never unlocks after a failed Lock, and closes (unlocks) on every later error path; Close reaches Unlock on every path; the unix remove unlinks only behind a successful exclusive open.",
 		NotCovered: "the directory contents over time (which files exist at which instant); flock semantics; Windows sharing semantics beyond the same pairing rules in the thorough tier.",
 	})
